@@ -23,6 +23,8 @@ import random
 import signal
 import sys
 import threading
+import time
+import multiprocessing as _mp
 import multiprocessing.pool as _mpp
 from multiprocessing.connection import Pipe
 
@@ -49,6 +51,9 @@ class Controller:
         # probability that, at a submission point (apply_async / map_async / imap), the handler threads and workers get to run
         # one more event before the submitting call returns - the parent being pre-empted between two submissions
         self.eager = self.sched.get("eager", 0.0)
+        # probability that a wait with a finite timeout (get / wait / next with timeout=...) expires before the result is there
+        self.timeout_p = self.sched.get("timeout_p", 0.0)
+        self.seam_counts = {"timed_wait_expired": 0, "sleep_calls": 0}
         self.decisions = []  # [pool_no, kind, worker] as taken
         self.pools = []  # per pool stats
         self.fork_fail_at = None  # pool creation number (0-based) that fails with EAGAIN
@@ -56,6 +61,12 @@ class Controller:
         self.pool_created_hook = None  # callable(pool) used by C11 probes
         self.live = []
         self._rr = 0
+
+    def timed_wait_expires(self):
+        if self.timeout_p and self.rng.random() < self.timeout_p:
+            self.seam_counts["timed_wait_expired"] += 1
+            return True
+        return False
 
     # -- scheduling ---------------------------------------------------------------------------
     def choose(self, pool, enabled):
@@ -101,6 +112,8 @@ class Controller:
             "worker_never_used": sum(1 for p in self.pools if p["unused_workers"] > 0),
             "multi_chunk_pools": sum(1 for p in self.pools if p["tasks"] >= 2),
             "fork_fail_fired": self.fork_fail_fired,
+            "timed_wait_expired": self.seam_counts["timed_wait_expired"],
+            "sleep_seam_calls": self.seam_counts["sleep_calls"],
             "signatures": [p["signature"] for p in self.pools],
         }
         return out
@@ -128,6 +141,13 @@ class _Worker:
 
 def _sim_wait(self, timeout=None):
     pool = self._simpool
+    if timeout is not None and CTL.timed_wait_expires():
+        # a wait with a finite timeout may expire before the result is there (a slow worker, a loaded machine): let a seeded
+        # number of events happen, then return whatever the state is - the stdlib's get() raises TimeoutError if not ready
+        for _ in range(CTL.rng.randrange(0, 4)):
+            if self.ready() or not pool._step():
+                break
+        return
     while not self.ready():
         if not pool._step():
             raise HarnessError("SimPool: result not ready and no event enabled (deadlock)")
@@ -156,6 +176,12 @@ class SimIMapIterator(_mpp.IMapIterator):
 
     def next(self, timeout=None):
         pool = self._simpool
+        if timeout is not None and CTL.timed_wait_expires():
+            for _ in range(CTL.rng.randrange(0, 4)):
+                if self._items or self._index == self._length or not pool._step():
+                    break
+            if not self._items and self._index != self._length:
+                raise _mp.TimeoutError
         while not self._items and self._index != self._length:
             if not pool._step():
                 raise HarnessError("SimPool: imap iterator starved (deadlock)")
@@ -499,6 +525,7 @@ class SimPool:
 
 
 _ORIG_EVENT_WAIT = threading.Event.wait
+_ORIG_SLEEP = time.sleep
 _ORIG_COND_WAIT = threading.Condition.wait
 
 
@@ -519,6 +546,19 @@ def _drive_until(pred):
             break
 
 
+def _sim_sleep(secs):
+    """time.sleep while pools are alive, in the main thread: virtual time - nothing sleeps, and the handler threads and workers of
+    the real pool would run meanwhile, so one to three dispatcher events happen (a polling loop around ready() makes progress)."""
+    if CTL.live and threading.current_thread() is threading.main_thread():
+        CTL.seam_counts["sleep_calls"] += 1
+        for _ in range(1 + CTL.rng.randrange(3)):
+            for pool in list(CTL.live):
+                if pool._state != TERMINATE and pool._step():
+                    break
+        return None
+    return _ORIG_SLEEP(secs)
+
+
 def _event_wait(self, timeout=None):
     if CTL.live and not self.is_set():
         _drive_until(self.is_set)
@@ -528,11 +568,13 @@ def _event_wait(self, timeout=None):
 def install():
     _mpp.Pool = SimPool
     threading.Event.wait = _event_wait
+    time.sleep = _sim_sleep
 
 
 def uninstall():
     _mpp.Pool = _REAL_POOL
     threading.Event.wait = _ORIG_EVENT_WAIT
+    time.sleep = _ORIG_SLEEP
 
 
 def terminate_all():
